@@ -21,6 +21,7 @@ Levels of the BFS can be expanded by several harness worker processes (``procs``
 of the frontier against the set of states known at the start of the level; the parent merges the slices in
 frontier order, so the result (states, shortest histories, first violation) does not depend on ``procs``.
 """
+import copy
 import hashlib
 import marshal
 import multiprocessing
@@ -46,15 +47,41 @@ def digest(k):
         return hashlib.blake2b(repr(k).encode(), digest_size=16).digest()
 
 
+CLONE = ['@clone']      # pseudo-operation: the whole world (model, agents, reference state) is replaced by a deep copy
+
+
+def clone_world(w, h=None):
+    """A deep copy of everything the harness holds: the copy of the model is wired to the copies of its agents, systems
+    and components, and the reference state is copied along, so the copy can be judged exactly like the original.
+    A harness that keeps tables keyed by object identity rebuilds them in ``after_clone(world)``."""
+    try:
+        w2 = copy.deepcopy(w)
+    except Exception as e:      # noqa
+        raise Violation(f'the model cannot be deep-copied after this history: {type(e).__name__}: {e}')
+    if h is not None and hasattr(h, 'after_clone'):
+        h.after_clone(w2)
+    return w2
+
+
 def run_history(h, history, check_every=True):
     """Replay ``history`` from the initial state with all checks; raises Violation at the first failure."""
     w = fresh(h)
     if check_every:
         _guard(h.check, w)
-    for op in history:
-        _guard(h.apply, w, op)
-        if check_every:
-            _guard(h.check, w)
+    cloned = False
+    try:
+        for op in history:
+            if op == CLONE:
+                w = clone_world(w, h)
+                cloned = True
+            else:
+                _guard(h.apply, w, op)
+            if check_every:
+                _guard(h.check, w)
+    except Violation as v:
+        if cloned:
+            raise Violation('[deep copy of the model] ' + v.msg, v.expected, v.observed, v.known)
+        raise
     return w
 
 
@@ -98,6 +125,23 @@ def _expand(histories):
         for op in hist:
             h.apply(w, op)
         ops = list(h.ops(w))
+        if _G.get('clone'):
+            # the state reached by hist, deep-copied: the copy passes the same checks, and so does every single
+            # operation continued on a copy (copies are not added to the frontier: they are the same states)
+            for op in [None] + ops:
+                transitions += 1
+                tail = [CLONE] + ([op] if op is not None else [])
+                try:
+                    w2 = fresh(h)
+                    for p in hist:
+                        h.apply(w2, p)
+                    w2 = clone_world(w2, h)
+                    if op is not None:
+                        _guard(h.apply, w2, op)
+                    _guard(h.check, w2)
+                except Violation as v:
+                    viols.append((hist + tail, ('[deep copy of the model] ' + v.msg, v.expected, v.observed, v.known),
+                                  None))
         for op in ops:
             w = fresh(h)
             try:
@@ -137,7 +181,7 @@ def _expand(histories):
 DEFAULT_STATE_CAP = 400000
 
 
-def explore(ctx, h, leg, max_depth, dedup=True, max_states=DEFAULT_STATE_CAP, case_extra=None, procs=1):
+def explore(ctx, h, leg, max_depth, dedup=True, max_states=DEFAULT_STATE_CAP, case_extra=None, procs=1, clone=False):
     """BFS to ``max_depth`` (or to the fixpoint if the frontier empties first).
 
     ``max_states`` is a deterministic budget: on the unchanged tree every leg stays far below it; a change to the
@@ -164,7 +208,7 @@ def explore(ctx, h, leg, max_depth, dedup=True, max_states=DEFAULT_STATE_CAP, ca
     frontier = [[]]
     states, transitions, depth_reached = 1, 0, 0
     capped = aborted = False
-    _G.update(h=h, seen=seen, dedup=dedup, has_outcome=hasattr(h, 'outcome'))
+    _G.update(h=h, seen=seen, dedup=dedup, has_outcome=hasattr(h, 'outcome'), clone=clone)
     level = 0
     while frontier and not capped and not aborted:
         level += 1
